@@ -34,10 +34,13 @@ PLANNED = "check not built yet in this revision (planned obligations: DESIGN.md 
 
 def main() -> int:
     props = [json.loads(line) for line in open(os.path.join(ROOT, "properties.jsonl"))]
+    ready = set(open(os.path.join(ROOT, "READY.txt")).read().split())
     checks, na = [], []
     for p in props:
         pid = p["id"]
         path = os.path.join(ROOT, "harness", f"{pid}.py")
+        if pid not in ready:
+            path = "/nonexistent"
         if pid in NOT_APPLICABLE and not os.path.exists(path):
             na.append({"property_id": pid, "reason": NOT_APPLICABLE[pid]})
             continue
